@@ -117,9 +117,9 @@ func classify(v *report.Violation) {
 	// labels (NOT known findings)
 	case strings.HasPrefix(v.Part, "r5-ipalloc[") && strings.HasSuffix(v.Kind, "/Stats-only+reapplied-SetAllocation"):
 		v.Class = "fix:C05-F1 SetAllocation re-applied counts twice"
-	case dist && v.Kind == "R3-agreement" && v.Site == "Allocate/put":
+	case dist && v.Kind == "R3-agreement/memory-lost" && (v.Site == "Allocate/put" || v.Site == "AllocateMAC/put"):
 		v.Class = "fix:C12-F1 rollback of a pre-existing allocation"
-	case dist && v.Kind == "R3-agreement" && v.Site == "Release/delete":
+	case dist && v.Kind == "R3-agreement/memory-lost" && v.Site == "Release/delete":
 		v.Class = "fix:C12-F2 release before store delete"
 	case strings.HasPrefix(v.Part, "r5-epoch[") && !strings.Contains(v.Config, " /32 ") && len(v.Trace) <= 1:
 		v.Class = "fix:C12-F3 epoch JSON base network"
